@@ -103,6 +103,20 @@ func NewWatcher() (*Watcher, error) {
 			ev := wt.pending[0]
 			wt.pending = wt.pending[1:]
 			simrt.Big.Unlock()
+			// fault point: the backend reports an error on the Errors channel (as the real one does for a
+			// failed or short read of the notification descriptor); no event is lost by it
+			if flt := simrt.Syscall("inotify_read", ev.Name, 0); flt.Kind == simrt.FErr {
+				simrt.Yield()
+				select {
+				case wt.Errors <- errors.New("simfsnotify: read of the notification descriptor failed"):
+					simrt.Woke()
+				case <-wt.done:
+					simrt.Woke()
+					return
+				case <-simrt.Dead():
+					simrt.Die()
+				}
+			}
 			simrt.Yield()
 			select {
 			case wt.Events <- ev:
